@@ -46,7 +46,7 @@ func c09Gen(c *vfCtx, emit func(c09Case)) {
 										continue
 									}
 									variant := (mask + fmask + cnt + sa) % 4
-									sc := vfCleanScenario{DirSpell: []string{"", "", "slash", "dot"}[(mask+fmask+sa)%4], DirName: []string{"", "w.snap.d", "", ".snapshots"}[variant], Count: cnt, CI: ci, Sort: srt, Env: env, SFiles: map[string]string{}, Other: map[string]string{"notes.txt": "n", "snapnotes": "no dot"}, Dirs: []string{"d.snap"}}
+									sc := vfCleanScenario{DirSpell: []string{"", "", "slash", "dot"}[(mask+fmask+sa)%4], DirName: []string{"", "w.snap.d", "pkg[1]", ".snapshots"}[variant], Count: cnt, CI: ci, Sort: srt, Env: env, SFiles: map[string]string{}, Other: map[string]string{"notes.txt": "n", "snapnotes": "no dot"}, Dirs: []string{"d.snap"}}
 									var es []vfEntry
 									if mask&1 != 0 {
 										es = append(es, staleEntryChoices[0])
@@ -82,6 +82,12 @@ func c09Gen(c *vfCtx, emit func(c09Case)) {
 										sc.SFiles["TestSkip_1.snap"] = "keep"
 										sc.SFiles["TestSkip_sub_2.snap.json"] = "{}"
 										sc.SFiles["TestSkipX_1.snap"] = "stale sibling file"
+									}
+									if (mask+fmask)%2 == 0 {
+										// stale files whose names equal an addressed file's name up to letter case
+										sc.Files = append(sc.Files, vfNamedFile{Name: "F.snap", Entries: []vfEntry{{ID: "TestA - 1", Body: "other case"}}})
+										sc.SFiles["testa_1.snap"] = "other case"
+										sc.SFiles["TESTA_1.SNAP"] = "upper case: no .snap in this name"
 									}
 									for i, n := range staleFileChoices {
 										if fmask&(1<<i) == 0 {
